@@ -219,11 +219,16 @@ def onOpenedSnap (m : Mon) (o : Obs) : Mon × List String :=
     (if handListExact o then [] else ["C02.hand-list-is-not-the-dealt-in-players-once-each"]) ++
     (if o.cfg.rule != .shortDeck && !(clockwise o) then ["C02.hand-list-not-clockwise"] else []) ++
     (if o.cfg.rule == .default then
-      (if labelsOK o then [] else ["C06.labels-not-in-standard-order-from-bb"]) ++
-      (if labelClaims o then []
-       else if (o.players.filter (·.participated)).length ≥ 3 && SMSpec.strictlyBetweenCw o.cfg.maxSeat o.sb o.bb o.dealer
-       then ["C06.label-claims-violated.big-blind-passed-the-dead-button"]   -- finding D26
-       else ["C06.label-claims-violated"])
+      -- the standard order presupposes the ring geometry button → small blind → big blind with nobody dealt in between
+      -- button and small blind; the rotation can leave other geometries (findings D26, D27), reported under their own class
+      let di := o.players.filter (·.participated)
+      let geo :=
+        if di.length ≥ 3 && SMSpec.strictlyBetweenCw o.cfg.maxSeat o.sb o.bb o.dealer then ".big-blind-passed-the-dead-button"          -- D26
+        else if di.length ≥ 3 && o.dealer != o.sb && di.any (fun p => SMSpec.strictlyBetweenCw o.cfg.maxSeat o.dealer o.sb p.seat)
+        then ".dealt-in-player-between-button-and-small-blind"                                                                      -- D27
+        else ""
+      (if labelsOK o then [] else ["C06.labels-not-in-standard-order-from-bb" ++ geo]) ++
+      (if labelClaims o then [] else ["C06.label-claims-violated" ++ geo])
      else [])
   ({ m with openObs := some o, openIds := ids }, v)
 
